@@ -1,5 +1,5 @@
 \* quick live facet: two signals, I = 20 (1/3 scale: cool 10, buffer 1, unavailable offset 3, grace 10), P = 1,
-\* Lmax = 1, block lag <= 1; s1 moves around its deviation threshold, s2 flips between available and unavailable
+\* Lmax = 1, block lag <= 1; s1 moves across its deviation threshold, s2 is steady (status flips: one-signal facet, Grogu_MC_two.cfg)
 CONSTANTS
   Sig = {"s1", "s2"}
   Start = 50
@@ -8,12 +8,15 @@ CONSTANTS
   Buffer = 1
   UOff = 3
   MaxT = 161
+  MaxH = 0
+  MaxSub = 0
+  MaxMem = 0
   RelCap = 24
   GraceCap = 13
   ParSet <- ParSet20
   FeedInit <- FeedInit20
   FeedChanges <- NoFeeds
-  Quotes <- QuotesLean
+  Quotes <- QuotesQ
 SPECIFICATION LiveSpec
 VIEW View
 INVARIANTS Inv
